@@ -524,7 +524,8 @@ NormalisedAt(f, p) ==
 (* ---------------------------------------------------- far points for CDFs *)
 (* the driver evaluates the CDF at -10^FarExp / +10^FarExp (or just outside  *)
 (* a bounded support) and demands <= 1e-6 / >= 1 - 1e-6                       *)
-FarExp(f, p) == CASE f \in {"pareto", "gpareto", "gev", "powerlaw"} -> 30
+FarExp(f, p) == CASE f \in {"pareto", "gpareto", "gev"} -> 30
+                  [] f = "powerlaw" -> IF RLt(p[1], R(5, 4)) THEN 100 ELSE 30   \* (10^e)^(1-alpha) <= 1e-6
                   [] f = "laplace" -> 3
                   [] OTHER -> 3
 
